@@ -38,6 +38,7 @@ class FakeExec:
         self.behaviour = behaviour
         self.log = []          # dicts: argv, cwd, env, listing, files, rc
         self.count = Counter()  # per argv-key execution counter
+        self.hook = None        # callable(argv, rec): runs while this command is "executing" (e.g. lets another job run meanwhile)
 
     def __call__(self, argv, cwd=None, env=None, stdout=None, stderr=None, encoding=None, **kw):
         cwd = os.fspath(cwd) if cwd is not None else os.getcwd()
@@ -51,6 +52,8 @@ class FakeExec:
         rec = {"argv": list(argv), "cwd": cwd, "real_cwd": os.getcwd(), "env": dict(env) if env is not None else None,
                "listing": listing, "contents": contents}
         self.log.append(rec)
+        if self.hook is not None:
+            self.hook(list(argv), rec)
         act = self.behaviour(list(argv), rec, self)
         rec["rc"] = act.get("rc", 0)
         if act.get("kill"):
@@ -143,16 +146,21 @@ class SimFuture:
     def __init__(self, ex, fn, args, kwargs, name):
         self.ex, self.fn, self.args, self.kwargs, self.name = ex, fn, args, kwargs, name
         self.done = False
+        self.started = False
         self._result = None
         self._exc = None
 
     def _run(self):
-        if self.done:
+        if self.done or self.started:
             return
+        self.started = True
+        self.ex.running.append(self)
         try:
             self._result = self.fn(*self.args, **self.kwargs)
         except Exception as e:  # noqa: BLE001 - a future stores its task's exception
             self._exc = e
+        finally:
+            self.ex.running.pop()
         self.done = True
         self.ex.completed.append(self.name)
 
@@ -175,6 +183,7 @@ class SimExecutorFactory:
         self.seed = seed
         self.hook = hook or (lambda what: None)
         self.executors = []
+        self.overlaps = 0
 
     def _prio(self, name):
         h = hashlib.sha256(f"{self.seed}/{name}".encode()).digest()
@@ -182,8 +191,28 @@ class SimExecutorFactory:
 
     def __call__(self, max_workers=None, **kw):
         ex = _SimExecutor(self)
+        ex.max_workers = max_workers
         self.executors.append(ex)
         return ex
+
+    def overlap_hook(self, argv, rec):
+        """Called by FakeExec while a command of the running task executes: with more than one worker another pending
+        task may run (entirely) in the meantime - a legal interleaving of two runners, decided by the seed and the two
+        task names.  Nesting depth is limited to the pool size."""
+        for ex in self.executors:
+            if not ex.running:
+                continue
+            if ex.max_workers is not None and len(ex.running) >= max(1, ex.max_workers):
+                continue
+            cur = ex.running[-1]
+            for other in sorted(ex.pending, key=lambda x: x.name):
+                if other.started or other.done or other is cur:
+                    continue
+                h = hashlib.sha256(f"{self.seed}/overlap/{cur.name}/{other.name}".encode()).digest()
+                if h[0] % 3 == 0:
+                    self.overlaps += 1
+                    other._run()
+            ex.pending = [p_ for p_ in ex.pending if not p_.done]
 
 
 class _SimExecutor:
@@ -191,6 +220,8 @@ class _SimExecutor:
         self.f = factory
         self.pending = []
         self.completed = []
+        self.running = []
+        self.max_workers = None
         self.hook = factory.hook
 
     def __enter__(self):
